@@ -448,13 +448,23 @@ func parseCLI(out string) cliOut {
 	return cliOut{kind: "other", raw: out}
 }
 
+// cliResultLine is the line the driver must print for a result object.
+func cliResultLine(res object.Object) string {
+	return fmt.Sprintf("Script gave result type:%s value:%s - which is '%t'.\n", res.Type(), res.Inspect(), res.True())
+}
+
 func abnormal(out string, err error, timedOut bool) string {
 	if timedOut {
 		return "did not terminate within the watchdog"
 	}
-	for _, m := range []string{"panic:", "Panic at the disco", "fatal error:", "goroutine 1 [", "runtime error"} {
-		if strings.Contains(out, m) {
-			return "output contains " + m
+	// what the Go runtime (or the driver's own recover) prints when it dies; matched at
+	// the start of a line, because a script's own error text may legitimately contain
+	// such words after the "Failed to run script:" prefix
+	for _, line := range strings.Split(out, "\n") {
+		for _, m := range []string{"panic: ", "Panic at the disco", "fatal error: ", "goroutine 1 [", "[signal SIG"} {
+			if strings.HasPrefix(line, m) {
+				return "output contains a line starting with " + m
+			}
 		}
 	}
 	if ee, ok := err.(*exec.ExitError); ok {
@@ -593,15 +603,62 @@ func c20CLI(c *ev.Ctx) {
 			}
 			return
 		}
-		wantTruth := fmt.Sprint(res.True())
-		if got.kind != "result" || got.typ != string(res.Type()) || got.value != res.Inspect() || got.truth != wantTruth {
+		if !strings.HasPrefix(out, cliResultLine(res)) {
 			c.Violation(id, "CLI result differs from Execute", map[string]interface{}{
-				"summary": fmt.Sprintf("driver reports type:%s value:%s truth:%s (%s); Execute gives type:%s value:%s truth:%s\n  args: %v\n  script: %s", got.typ, clip(got.value, 200), got.truth, got.kind, res.Type(), clip(res.Inspect(), 200), wantTruth, args[1:], script), "script": script})
+				"summary": fmt.Sprintf("driver printed %q; Execute gives type:%s value:%s truth:%v, so the first line must be %q\n  args: %v\n  script: %s", clip(out, 300), res.Type(), clip(res.Inspect(), 200), res.True(), clip(cliResultLine(res), 300), args[1:], script), "script": script})
 		}
 		c.SampleEvery(i, func() interface{} {
 			return map[string]string{"args": strings.Join(args[1:len(args)-1], " "), "script": clip(script, 300), "driver": clip(strings.TrimSpace(out), 200)}
 		})
 	})
+	// every kind of result value, with characters that matter to a formatter
+	hostile := []string{`"50%"`, `"%s %d %v"`, `"100%!"`, `"%"`, `["%s", 3]`, `{"%d": "%%"}`, `sprintf("%d%%", 75)`, `"line1\nline2"`, `"it's"`, `"a - which is 'true'."`, `" value:x"`, `"type:INTEGER"`,
+		`"tab\there"`, `"q\"uote"`, `"狐犬 é"`, `""`, `" "`, `0`, `-1`, `70000`, `1.5`, `-0.0`, `true`, `false`, `null`, `[]`, `[1, "a", [2]]`, `{}`, `{"a": {"b": [1]}}`, `/re%s/`, `1 == 1`, `Doc`, `Doc.pct`, `Missing`}
+	for hi, hv := range hostile {
+		for fi, flags := range [][]string{{}, {"-no-optimizer"}, {"-timeout", "10s"}} {
+			id := fmt.Sprintf("cli-value/%d/%d", hi, fi)
+			if !c.Want(id) {
+				continue
+			}
+			script := "return " + hv + ";"
+			sf := filepath.Join(work, fmt.Sprintf("v%d_%d.script", hi, fi))
+			jf := filepath.Join(work, fmt.Sprintf("v%d_%d.json", hi, fi))
+			os.WriteFile(sf, []byte(script), 0o644)
+			data := []byte(`{"Doc": {"pct": "99%", "n": 1}, "S": "%v"}`)
+			os.WriteFile(jf, data, 0o644)
+			args := append(append([]string{"run", "-json", jf}, flags...), sf)
+			out, err, to := runCLI(bin, args...)
+			c.Case(script+strings.Join(flags, " "), true)
+			if why := abnormal(out, err, to); why != "" {
+				c.Violation(id, "CLI run abnormal termination", map[string]interface{}{"summary": fmt.Sprintf("evalfilter %v: %s: %s", args, why, clip(out, 300)), "script": script})
+				continue
+			}
+			doc := map[string]interface{}{}
+			json.Unmarshal(data, &doc)
+			e := evalfilter.New(script)
+			var perr error
+			if len(flags) == 1 {
+				perr = e.Prepare([]byte{evalfilter.NoOptimize})
+			} else {
+				perr = e.Prepare()
+			}
+			if perr != nil {
+				continue
+			}
+			res, xerr := e.Execute(doc)
+			got := parseCLI(out)
+			if xerr != nil {
+				if got.kind != "runerr" {
+					c.Violation(id, "CLI vs Execute error", map[string]interface{}{"summary": fmt.Sprintf("%s: Execute fails (%v), driver printed %s", script, xerr, clip(out, 200)), "script": script})
+				}
+				continue
+			}
+			if !strings.HasPrefix(out, cliResultLine(res)) {
+				c.Violation(id, "CLI result differs from Execute", map[string]interface{}{
+					"summary": fmt.Sprintf("%s %v: driver printed %q, expected it to start with %q", script, flags, clip(out, 300), cliResultLine(res)), "script": script})
+			}
+		}
+	}
 	// -timeout stops a runaway script, and does not disturb a finite one
 	for ti, tc := range []struct{ script, want string }{{"while (true) { }", "runerr"}, {"function f() { while (1) { } } f();", "runerr"}, {"return 1 + 2;", "result"}} {
 		id := fmt.Sprintf("cli-timeout/%d", ti)
